@@ -503,3 +503,40 @@ KEEP += [
                      "        let number = |key: &str| Self::read_number(&params[key], key);\n        let a1 = number(\"a1\")?;\n        let a2 = number(\"a2\")?;\n        let b = number(\"b\")?;\n        Ok(Parameters {\n            a1,\n            a2,\n            b,\n", False)],
      None, ['C19'], 'three scalars read through a closure keyed by name and held in locals'),
 ]
+
+# ---- ninth batch: Frame
+KEEP += [
+    ('K125', F, "    let dist_a1_a2 = (a1 - a2).norm();\n    let dist_a1_a3 = (a1 - a3).norm();\n    let dist_a2_a3 = (a2 - a3).norm();\n\n    let dist_b1_b2 = (b1 - b2).norm();\n    let dist_b1_b3 = (b1 - b3).norm();\n    let dist_b2_b3 = (b2 - b3).norm();\n\n    (dist_a1_a2 - dist_b1_b2).abs() < tolerance &&\n        (dist_a1_a3 - dist_b1_b3).abs() < tolerance &&\n        (dist_a2_a3 - dist_b2_b3).abs() < tolerance\n",
+     "    let close = |x: &Point3<f64>, y: &Point3<f64>, u: &Point3<f64>, v: &Point3<f64>| {\n        ((x - y).norm() - (u - v).norm()).abs() < tolerance\n    };\n    close(a1, a2, b1, b2) && close(a1, a3, b1, b3) && close(a2, a3, b2, b3)\n",
+     ['C17'], 'the three distance comparisons through one closure'),
+    ('K126', None, [(F, "        if v1.cross(&v2).norm() == 0.0 {\n            return Err(Box::new(ColinearPoints::new(p1, p2, p3, true)));\n        }\n",
+                     "        let source_normal = v1.cross(&v2);\n        if source_normal.norm_squared() == 0.0 {\n            return Err(Box::new(ColinearPoints::new(p1, p2, p3, true)));\n        }\n", False),
+                    (F, "        let b2 = v1.cross(&v2).normalize();\n", "        let b2 = source_normal.normalize();\n", False),
+                    (F, "        let translation = q1 - rotation.transform_point(&p1);\n", "        let translation = q1 - rotation * p1;\n", False)],
+     None, ['C17'], 'source normal held in a local, norm_squared() == 0 for norm() == 0, rotation * p1 for transform_point'),
+    ('K127', F, "        if !is_valid_isometry(&p1, &p2, &p3, &q1, &q2, &q3, NON_ISOMETRY_TOLERANCE) {\n            return Err(Box::new(NotIsometry::new(p1, p2, p3, q1, q2, q3)));\n        }\n",
+     "        let congruent = distances_match(&p1, &p2, &p3, &q1, &q2, &q3, NON_ISOMETRY_TOLERANCE);\n        if congruent {\n            // proceed\n        } else {\n            return Err(Box::new(NotIsometry::new(p1, p2, p3, q1, q2, q3)));\n        }\n",
+     ['C17'], 'congruence helper called directly, verdict in a local, error in the else branch'),
+]
+
+# ---- tenth batch: the Cartesian planner
+KEEP += [
+    ('K128', CA, "        for joints in onboarding.iter().take(onboarding.len().saturating_sub(1)) {\n            trace.push(AnnotatedJoints {\n                joints: *joints,\n                flags: PathFlags::ONBOARDING,\n            });\n        }\n",
+     "        for i in 0..onboarding.len().saturating_sub(1) {\n            trace.push(AnnotatedJoints {\n                joints: onboarding[i],\n                flags: PathFlags::ONBOARDING,\n            });\n        }\n",
+     ['C12'], 'onboarding points copied by an index loop'),
+    ('K129', CA, "        let mut pairs_iterator = poses.windows(2);\n\n        while let Some([from, to]) = pairs_iterator.next() {\n",
+     "        for pair in poses.windows(2) {\n            let (from, to) = (&pair[0], &pair[1]);\n",
+     ['C12'], 'pose pairs by a for loop over windows(2)'),
+    ('K130', CA, "        if trace.par_iter().any(|step| self.robot.collides(&step.joints)) {\n            return Err(\"Collision detected\".into());\n        }\n",
+     "        for step in &trace {\n            if self.robot.collides(&step.joints) {\n                return Err(\"Collision detected\".into());\n            }\n        }\n",
+     ['C12'], 'final sweep as a sequential loop with early return'),
+    ('K131', CA, "        if !self.include_linear_interpolation {\n            trace.retain(|step| !step.flags.contains(PathFlags::LIN_INTERP));\n        }\n\n        Ok(trace)\n",
+     "        if self.include_linear_interpolation {\n            return Ok(trace);\n        }\n        Ok(trace\n            .into_iter()\n            .filter(|step| !step.flags.contains(PathFlags::LIN_INTERP))\n            .collect())\n",
+     ['C12'], 'interpolated waypoints dropped by filter/collect under the inverted test'),
+    ('K132', CA, "        for next in &solutions {\n            // Internal \"miniposes\" generated through recursion are not checked for collision.\n            // They only check agains continuity of the robot movement (no unexpected jerks)\n            let cost = transition_costs(starting, next, &self.transition_coefficients);\n            if cost <= self.max_transition_cost {\n                return Ok(vec![next.clone()]); // Track minimal cost observed\n            }\n        }\n",
+     "        let affordable = solutions.iter().find(|next| {\n            transition_costs(starting, next, &self.transition_coefficients) <= self.max_transition_cost\n        });\n        if let Some(next) = affordable {\n            return Ok(vec![*next]);\n        }\n",
+     ['C12'], 'first affordable solution by Iterator::find'),
+    ('K133', CA, "            Ok(first_track\n                .into_iter()\n                .chain(second_track.into_iter())\n                .collect())\n",
+     "            let mut track = first_track;\n            track.extend(second_track);\n            Ok(track)\n",
+     ['C12'], 'the two half tracks joined with extend'),
+]
